@@ -9,6 +9,10 @@ for p in props/C*.py; do
   lc=$(echo "$id" | tr 'A-Z' 'a-z')
   echo "== $id"
   (cd lean && lake build "LeptosModel.Theorems.$id" "lm_$lc" 2>&1 | tail -3)
-  (cd harness && cargo build --release --offline -p "hx-$lc" 2>&1 | tail -3)
+  if grep -q '"hooks": True' "$p"; then
+    (cd harness && RUSTFLAGS="--cfg leptos_verif" CARGO_TARGET_DIR="$PWD/target-verif" cargo build --release --offline -p "hx-$lc" 2>&1 | tail -3)
+  else
+    (cd harness && CARGO_TARGET_DIR="$PWD/target" cargo build --release --offline -p "hx-$lc" 2>&1 | tail -3)
+  fi
 done
 echo setup-done
